@@ -237,10 +237,22 @@ func c07Exec(h *shG, sp c07Spec) c07Case {
 		case "pubeval":
 			cs.line = fmt.Sprintf("share %s pubeval %s %x", q, shJoin(shHexList(commitLogs)), sp.I)
 			p := mkPoly(coeffs)
-			s := p.Commit(baseP).Eval(sp.I)
+			pub := p.Commit(baseP)
+			s := pub.Eval(sp.I)
 			want := h.g.Point().Mul(p.Eval(sp.I).V, baseP)
 			if s.I != sp.I || !s.V.Equal(want) {
 				cs.pred = fmt.Sprintf("PubPoly.Eval(%d) is not the commitment of private share %d", sp.I, sp.I)
+			}
+			// the evaluation holds at any time: values handed out earlier belong to the caller, who may
+			// overwrite them (accumulate into them) without changing what the polynomial evaluates to
+			s1, s2 := pub.Eval(sp.I), pub.Eval(sp.I)
+			s1.V.Add(s1.V, h.g.Point().Base())
+			s2.V.Null()
+			priv := p.Eval(sp.I)
+			pv := priv.V.Clone()
+			priv.V.Add(priv.V, h.g.Scalar().One())
+			if s3 := pub.Eval(sp.I); !s3.V.Equal(want) || !pub.Check(&share.PriShare{I: sp.I, V: pv}) || !p.Eval(sp.I).V.Equal(pv) {
+				cs.pred = fmt.Sprintf("PubPoly.Eval(%d)/Check/PriPoly.Eval change after the caller overwrote values returned by earlier evaluations", sp.I)
 			}
 			cs.isPts, cs.pts = true, []kyber.Point{s.V}
 			cs.nt = len(coeffs) >= 2
